@@ -18,23 +18,33 @@ def run(tier, rep):
     # with the cache key as the code has it (KeyHasAnchor = TRUE after fix 2699cfa)
     consts = dict(Family='"collide"', M="5", Part="0", Parts="1", EmitMod="1", DocN="3" if thorough else "2",
                   KeyHasAnchor="TRUE", SortByFqdn="FALSE", EmitCases="FALSE")
-    r = vlib.tlc("MC_Eval", "MC_Eval.cfg", consts=consts, timeout=3000)
-    rep.add_tlc("MC_Eval(collide: identical declarations, cache on = cache off)", r)
-    if not vlib.tlc_ok(r, "MC_Eval"):
-        raise vlib.Inconclusive("the Eval model violates %s: specification problem" % r.violated)
-    c2 = dict(consts, Family='"ietwin"', M="4", DocN="1")
-    r = vlib.tlc("MC_Eval", "MC_Eval.cfg", consts=c2, timeout=3000)
-    rep.add_tlc("MC_Eval(ietwin: declarations differing only in ignore_error)", r)
-    if not vlib.tlc_ok(r, "MC_Eval"):
-        raise vlib.Inconclusive("the Eval model violates %s: specification problem" % r.violated)
     if thorough:
         consts.update(Family='"all"', M="3")
         r = vlib.tlc("MC_Eval", "MC_Eval.cfg", consts=consts, timeout=3000, workers=4)
         rep.add_tlc("MC_Eval(all M=3: cache on = cache off)", r)
         if not vlib.tlc_ok(r, "MC_Eval"):
             raise vlib.Inconclusive("the Eval model violates %s: specification problem" % r.violated)
+    # B1: the cases of the families in which the cached evaluator was compared with the cache-free one, on the real
+    # Transform with every cache off and with every cache on
+    fams = [("collide", dict(Family='"collide"', M="5", DocN="3" if thorough else "2")), ("ietwin", dict(Family='"ietwin"', M="4", DocN="1")),
+            ("dyn", dict(Family='"dyn"', M="5", DocN="3", EmitMod="1" if thorough else "2")),
+            ("sig", dict(Family='"sig"', M="6", DocN="2", EmitMod="1" if thorough else "4"))]
+    recs = []
+    for k, (name, fc) in enumerate(fams):
+        cc = dict(consts, EmitCases="TRUE", **fc)
+        r = vlib.tlc("MC_Eval", "MC_Eval.cfg", consts=cc, timeout=3000, workers=4)
+        rep.add_tlc("MC_Eval(%s: cases for the cache on/off replay)" % name, r)
+        if not vlib.tlc_ok(r, "MC_Eval") or not r.cases:
+            raise vlib.Inconclusive("the Eval model violates %s or emitted no cases: specification problem" % r.violated)
+        p = os.path.join(vlib.scratch(), "c13.cases.%d.ndjson" % k)
+        vlib.write_ndjson(p, r.cases)
+        del r.cases[:]
+        rr, _ = vlib.run_vh(["c13-replay", p], timeout=3000)
+        recs += rr
+        os.remove(p)
     tr = os.path.join(vlib.scratch(), "c13.trace.ndjson")
-    recs, _ = vlib.run_vh(["c13-drive", tr], timeout=3000)
+    rr, _ = vlib.run_vh(["c13-drive", tr], timeout=3000)
+    recs += rr
     for x in recs:
         if x.get("kind") == "violation":
             rep.violation(x)
@@ -53,7 +63,7 @@ def run(tier, rep):
         rep.violation({"property": "C13", "key": key, "kind": "b3",
                        "summary": "%s: results differ from the all-caches-off run under %d configuration(s), e.g. %s" % (item, len(cfgs), cfgs[:2]),
                        "item": item, "configs": cfgs, "all_off": rj["events"][0].get("results"), "example": bad[0].get("results") if bad else None})
-    rep.cov["rule"] = ("24 cache/pool configurations x (repo samples, harness schemas for all formats/encodings, schemas with textually identical "
+    rep.cov["rule"] = ("B1: the (declaration tree, record) cases of MC_Eval's families collide / ietwin / dyn / sig, each on the real Transform with all caches off and all caches on (inline and template rendering, XML and JSON); B3: 24 cache/pool configurations x (repo samples, harness schemas for all formats/encodings, schemas with textually identical "
                        "declarations at anchoring and non-anchoring positions, shared templates, xpath_dynamic, javascript_with_context on the record "
                        "and on an ancestor), cold and warm; TLC requires every transcript to equal the all-off transcript. non-trivial: a run with >=2 records")
     rep.cov["exhaustive"] = True
